@@ -313,7 +313,7 @@ pub struct Style {
     pub name_sp: u8,  // spaces between name and '('
     pub nu: bool,     // ν-prefixed literals
     pub var: u8,      // 0: $a/$b, 1: $ν1/$ν2
-    pub hex: u8,      // 0 upper, 1 lower with dashes, 2 mixed with inner blanks
+    pub hex: u8,      // 0 upper, 1 lower with dashes, 2 mixed with inner blanks, 3 wrapped over lines (tab, LF, CRLF inside the literal)
     pub comments: u8, // 0 none, 1 between commands, 2 also at the top, with ; ( # inside
     pub empties: bool,
     pub final_semi: bool,
@@ -325,7 +325,7 @@ pub fn all_styles() -> Vec<Style> {
         for name_sp in 0..3 {
             for nu in [false, true] {
                 for var in 0..2 {
-                    for hex in 0..3 {
+                    for hex in 0..4 {
                         for comments in 0..3 {
                             for empties in [false, true] {
                                 for final_semi in [false, true] {
@@ -350,6 +350,7 @@ pub fn menu_styles() -> Vec<Style> {
         Style { nu: true, var: 1, ..base },
         Style { hex: 1, ..base },
         Style { hex: 2, ws: 1, ..base },
+        Style { hex: 3, ..base },
         Style { comments: 1, ..base },
         Style { comments: 2, ws: 2, ..base },
         Style { empties: true, final_semi: false, ..base },
@@ -386,7 +387,8 @@ pub fn render(p: &[PCmd], s: &Style) -> String {
         match s.hex {
             0 => b.iter().map(|x| format!("{x:02X}")).collect::<String>(),
             1 => b.iter().map(|x| format!("{x:02x}")).collect::<Vec<_>>().join("-"),
-            _ => b.iter().enumerate().map(|(i, x)| if i % 2 == 0 { format!("{x:02X}") } else { format!("{x:02x}") }).collect::<Vec<_>>().join(" - "),
+            2 => b.iter().enumerate().map(|(i, x)| if i % 2 == 0 { format!("{x:02X}") } else { format!("{x:02x}") }).collect::<Vec<_>>().join(" - "),
+            _ => b.iter().enumerate().map(|(i, x)| format!("{x:02X}{}", ["\n\t", "-\r\n ", "\t"][i % 3])).collect::<String>(),
         }
     };
     let sp = " ".repeat(s.name_sp as usize);
@@ -575,7 +577,7 @@ pub fn run_c14(tier: &str) -> Outcome {
         acc.failures.retain(|f| !f.signature.starts_with("machinery:"));
     }
     let rule = format!(
-        "PROGGEN: every program of <= {maxlen} ADD/BIND/PUT commands over ids {{0,1,2,$a,$b}}, labels {{foo, α1, x}}, data {{1, 8, 9 bytes}} (and of {rl_from}..={rl_to} commands over {{0,$a}}) whose direct execution respects the graph preconditions; each rendered with a menu of 12 legal formattings, programs of <= 2 commands with the full product of 1296 (whitespace, spaces before the parenthesis, ν-prefixes, $ν1-style names, hex case/dashes/blanks, comments containing ; ( #, empty commands, final semicolon); oracle: complete internal state after deploy_to == state after the same calls made directly, count == number of commands. PLUS every single-character deletion/replacement/insertion ({} fault characters) at every position of every program of <= {} commands over a reduced alphabet in two renderings, judged by a conservative reference parser: well-formed -> equals its own direct calls; definitely malformed at command i -> Err, no panic, graph == commands 0..i; grey -> no demand. distinct_nontrivial = texts with a settled class",
+        "PROGGEN: every program of <= {maxlen} ADD/BIND/PUT commands over ids {{0,1,2,$a,$b}}, labels {{foo, α1, x}}, data {{1, 8, 9 bytes}} (and of {rl_from}..={rl_to} commands over {{0,$a}}) whose direct execution respects the graph preconditions; each rendered with a menu of 13 legal formattings, programs of <= 2 commands with the full product of 1728 (whitespace, spaces before the parenthesis, ν-prefixes, $ν1-style names, hex case/dashes/blanks/line breaks inside the literal, comments containing ; ( #, empty commands, final semicolon); oracle: complete internal state after deploy_to == state after the same calls made directly, count == number of commands. PLUS every single-character deletion/replacement/insertion ({} fault characters) at every position of every program of <= {} commands over a reduced alphabet in two renderings, judged by a conservative reference parser: well-formed -> equals its own direct calls; definitely malformed at command i -> Err, no panic, graph == commands 0..i; grey -> no demand. distinct_nontrivial = texts with a settled class",
         FAULTS.len(),
         if quick { 2 } else { 3 }
     );
